@@ -276,6 +276,7 @@ int main(int argc, char** argv)
 {
     if (argc < 4) return 2;
     vt::out().open(argv[1]);
+    vt::install_abort_handler();
     vt::rng g(std::strtoull(argv[2], nullptr, 10));
     bool thorough = std::atoi(argv[3]) != 0;
     grid_cases<float>(2, g, thorough); grid_cases<double>(3, g, thorough); grid_cases<long double>(4, g, thorough);
